@@ -5,7 +5,7 @@ import os
 from .common import *
 
 # token indices (0 = op) holding hex payloads / payload lists, per op: used by the shrinker
-PAYLOAD = {"kg": [2], "mg": [3], "kmg": [3]}
+PAYLOAD = {"kg": [2], "mg": [3], "kmg": [3], "oligo": [3], "covrow": [6], "cgr": [2], "ocgr": [4]}
 
 BASE_TRUSTED = [
     "Coq 8.16.1 kernel incl. vm_compute (no native_compute, no kernel flags, full .vo build)",
@@ -193,6 +193,134 @@ def extra_C18(cases, impl):
     return bad
 
 
+# ---------------------------------------------------------------- C04
+def gen_record(r, k, maxlen=300):
+    c = r.below(10)
+    n = [0, 1, max(k - 1, 0), k, k + 1, 2 * k][r.below(6)] if r.below(4) == 0 else r.below(maxlen)
+    if c == 0: return bytes([r.pick(NUC)]) * n                      # homopolymer
+    if c == 1: return gen_lowc(r, n)
+    if c == 2:                                                       # palindromic content
+        h = bytes(r.choices(NUC, k=n // 2)); return h + rc_bytes(h)
+    if c == 3: return bytes(r.choices(AMBIG, k=n))                   # no valid window at all
+    return gen_seq(r, n)
+
+def to_lower(s): return s.lower()
+def t_to_u(s): return s.replace(b"T", b"U").replace(b"t", b"u")
+
+def gen_C04(r, tier):
+    n = {"quick": 2500, "thorough": 40000}[tier]
+    cases = []
+    for _ in range(n):
+        k = r.pick([1, 2, 3, 3, 4, 4, 5, 6]) if r.below(30) else r.pick([7, 7, 8])
+        s = gen_record(r, k, 300 if k <= 6 else 120)
+        norm = r.below(2)
+        for v in (s, rc_bytes(s), to_lower(s), t_to_u(s), t_to_u(to_lower(s))):
+            cases.append("oligo %d %d %s" % (k, norm, hx(v)))
+    return cases
+
+def extra_C04(cases, impl):
+    """invariance of the row under reverse complement, case change and U for T, on the implementation itself"""
+    bad = []
+    for i in range(0, len(cases) - 4, 5):
+        if not cases[i].startswith("oligo "): continue
+        for j, what in ((1, "reverse complement"), (2, "lower case"), (3, "U for T"), (4, "lower case with u for t")):
+            if impl[i + j] != impl[i]:
+                bad.append((cases[i + j], "row changes under %s of %s" % (what, cases[i].split(" ")[3][:60])))
+    return bad
+
+
+# ---------------------------------------------------------------- C08 (record level)
+def gen_table(r, k, s, extra=True):
+    """multiplicities for the canonical k-mers of s (computed by a throw-away oracle only to pick keys that occur):
+    boundary values q*bs-1, q*bs and values far beyond the last bin"""
+    return None
+
+def canon_kmers(s, k):
+    out = []
+    code = {65: 0, 97: 0, 67: 1, 99: 1, 71: 2, 103: 2, 84: 3, 116: 3, 85: 3, 117: 3}
+    f = 0; rv = 0; l = 0; mask = (1 << (2 * k)) - 1
+    for b in s:
+        c = code.get(b)
+        if c is None: l = 0; continue
+        f = ((f << 2) | c) & mask; rv = (rv >> 2) | ((3 - c) << (2 * (k - 1))); l += 1
+        if l >= k: out.append(min(f, rv))
+    return out
+
+def gen_C08_rows(r, n):
+    cases = []
+    for _ in range(n):
+        k = r.pick([1, 2, 3, 5, 7, 11, 15, 21, 31])
+        bs = r.pick([1, 2, 5, 16, 1000]); bc = r.pick([1, 2, 5, 16, 40])
+        s = gen_record(r, k, 200)
+        keys = sorted(set(canon_kmers(s, k)))
+        r.shuffle(keys)
+        tbl = []
+        for x in keys[:40]:
+            if r.below(5) == 0: continue                    # absent from the counting input: bin 0
+            q = r.below(bc + 3)
+            c = [q * bs, max(q * bs - 1, 0), q * bs + r.below(bs), 1, 10 ** 4 * bs, 4294967295][r.below(6)]
+            tbl.append("%d:%d" % (x, min(c, 4294967295)))
+        cases.append("covrow %d %d %d %d %s %s" % (k, bs, bc, r.below(2), ",".join(tbl) or "_", hx(s)))
+    return cases
+
+def gen_C08(r, tier):
+    return gen_C08_rows(r, {"quick": 4000, "thorough": 80000}[tier])
+
+
+# ---------------------------------------------------------------- C11 / C12 (record level)
+def bitlen(n): return n.bit_length()
+
+def to_spec_cgr(case, out):
+    """points beyond the exactly-representable prefix (position i needs bitlen S + i + 2 <= 53) are compared with
+    the binary64 model only; the exact specification marks them ~"""
+    p = case.split(" ")
+    if p[0] != "cgr" or out in ("ERR",) or out.startswith(("PANIC", "CRASH", "NOT-RUN", "MODEL")) or not out: return out
+    n = 52 - bitlen(int(p[1]))
+    items = out.split(",")
+    return ",".join(items[:n] + ["~"] * max(0, len(items) - n))
+
+def gen_C11(r, tier):
+    n = {"quick": 3000, "thorough": 50000}[tier]
+    cases = []
+    for b in range(0, 256):                 # rejection clause: every byte value planted (bytes 0..3 included: not letters)
+        cases.append("cgr 1 " + hx([b]))
+        cases.append("cgr 16 " + hx(b"ACG" + bytes([b]) + b"T"))
+    for _ in range(n):
+        S = r.pick([1, 2, 3, 16, 1000, 2 ** 20, 1 + r.below(2 ** 20)])
+        L = [0, 1, 2, r.below(60), r.below(60), r.below(400)][r.below(6)]
+        if tier == "thorough" and r.below(200) == 0: L = 1000 + r.below(4000)
+        s = bytes(r.choices(NUC10, k=L))
+        if L and r.below(5) == 0:
+            i = r.below(L); s = s[:i] + bytes([r.below(256)]) + s[i + 1:]
+        cases.append("cgr %d %s" % (S, hx(s)))
+    return cases
+
+def gen_C12(r, tier):
+    n = {"quick": 1500, "thorough": 20000}[tier]
+    cases = []
+    for _ in range(n):
+        k = r.pick([1, 2, 3, 3, 4, 4, 5]) if r.below(10) else r.pick([6, 7])
+        S = r.pick([1, 2, 3, 9, 16, 1000, 2 ** 20, 1 + r.below(2 ** 20)])
+        s = gen_record(r, k, 200 if k <= 5 else 80)
+        cases.append("ocgr %d %d %d %s" % (k, S, r.below(2), hx(s)))
+        cases.append("oligo %d %d %s" % (k, cases[-1].split(" ")[3] == "1", hx(s)) if False else "oligo %d %s %s" % (k, cases[-1].split(" ")[3], hx(s)))
+    return cases
+
+def extra_C12(cases, impl):
+    """f equals the value the oligonucleotide vector gives that column; (x, y) is the same in every row"""
+    bad = []; xy = {}
+    for i in range(0, len(cases) - 1):
+        p = cases[i].split(" ")
+        if p[0] != "ocgr" or not cases[i + 1].startswith("oligo ") or impl[i].startswith(("PANIC", "CRASH", "NOT-RUN", "ERR")): continue
+        tr = [t.split(":") for t in impl[i].split(",")]
+        if [t[2] for t in tr] != impl[i + 1].split(","):
+            bad.append((cases[i], "frequencies differ from the oligo vector of the same record"))
+        key = (p[1], p[2]); pts = [(t[0], t[1]) for t in tr]
+        if xy.setdefault(key, pts) != pts:
+            bad.append((cases[i], "(x, y) of the columns differs between rows for k=%s S=%s" % key))
+    return bad
+
+
 PROPS = {
     "C01": dict(gen=gen_C01, needs=["harness"],
                 rule="corpus, then the exhaustive alphabet sweep (every byte 4..255 alone at k=1 and inside AC?GT at k=2), then seeded structured sequences (per-case ambiguity rate 0/1/5/15 %, k in 1..=31 with extra weight on 1,15,16,17,30,31, boundary lengths 0,k-1,k,k+1,2k,3k+1); thorough adds every string over {A,c,G,u,N,0xFF} up to length 7 for k 1..4; non-trivial = the iterator yields at least one item; distinct = distinct case lines",
@@ -203,6 +331,20 @@ PROPS = {
     "C03": dict(gen=gen_C03, needs=["harness"],
                 rule="kmer_pos_maps(k) and the header for every k in 1..=7 (quick) / 1..=8 (thorough), all 4^k entries enumerated (entries of non-canonical codes are not compared: unspecified); one case per (op, k), each non-trivial",
                 assumptions=[], exhaustive=True),
+    "C04": dict(gen=gen_C04, needs=["harness"], extra=extra_C04, sample_filter=lambda c: int(c.split(" ")[1]) <= 6,
+                rule="seeded records (homopolymers, low-complexity repeats, palindromic h++rc(h), all-ambiguous, mixed with planted ambiguous bytes; boundary lengths 0,1,k-1,k,k+1,2k) for k in 1..=8, raw and normalised, each also as its reverse complement, lower case, U for T and both; vector entries compared as binary64 bit patterns with the Flocq model; non-trivial = some entry non-zero; relations on the implementation: the four respellings give the identical row",
+                nontrivial=lambda c, o: bool(o) and not o.startswith(("PANIC", "CRASH", "NOT-RUN")) and any(x != "0" for x in o.split(",")),
+                assumptions=["bytes 0x00-0x03 are never generated", "counts stay below 2^53 (f64 increments exact)"]),
+    "C08": dict(gen=gen_C08, needs=["harness"],
+                rule="record level: seeded records x k in {1,2,3,5,7,11,15,21,31} x bin sizes {1,2,5,16,1000} x bin counts {1,2,5,16,40} x raw/normalised, count tables over k-mers that occur in the record with boundary multiplicities q*s-1, q*s, absent k-mers, 10^4*s and u32::MAX; non-trivial = some entry non-zero",
+                nontrivial=lambda c, o: bool(o) and not o.startswith(("PANIC", "CRASH", "NOT-RUN")) and any(x != "0" for x in o.split(",")),
+                assumptions=["(count as f64 / bin_size as f64).floor() equals integer division for count < 2^32, bin_size < 2^32 (modelled as N division; boundary multiplicities generated on purpose)"]),
+    "C11": dict(gen=gen_C11, needs=["harness"], to_spec=to_spec_cgr,
+                rule="record level: every byte value 0..255 alone and planted inside ACG?T (rejection clause, exhaustive), then seeded nucleotide strings over ACGTacgtUu of length 0..400 (thorough: some to 5000) with square sizes {1,2,3,16,1000,2^20,random}, one in five with a random byte planted; coordinates compared bit for bit with the Flocq binary64 model for every length and with the exact dyadic specification on the exactly representable prefix; non-trivial = at least one point or a rejection",
+                assumptions=["Rust f64 + and / are IEEE-754 binary64 round-to-nearest-even (Flocq's b64_plus, b64_div)"]),
+    "C12": dict(gen=gen_C12, needs=["harness"], extra=extra_C12, sample_filter=lambda c: int(c.split(" ")[1]) <= 4,
+                rule="record level: seeded records x k in 1..=7 x square sizes {1,2,3,9,16,1000,2^20,random} x raw/normalised; triples compared bit for bit (x, y with the Flocq model and the exact dyadic spec; f with the oligo model); each record also goes through the oligo vector: f must equal it and (x, y) must not depend on the record; non-trivial = some f non-zero",
+                assumptions=["Rust f64 arithmetic is IEEE-754 binary64 round-to-nearest-even"]),
     "C09": dict(gen=gen_C09, needs=["harness"],
                 rule="corpus (witnesses of the repaired defects D1/D2 first), then seeded (w, m, sequence): m to 31, w to m+60, lengths 0,m,w-1,w,w+1,2w+3 and random to 400, half low-complexity repeats (period 1..6) with planted N and point mutations, a change on the last base, an N within the last window; thorough adds every string over {A,C,G,T,N} up to length 8 for m<=3, w<=m+2; non-trivial = at least one run",
                 assumptions=["bytes 0x00-0x03 are never generated"]),
